@@ -495,6 +495,33 @@ func condLabel(cond ssa.Value, want bool) string {
 				op = negOp(op)
 			}
 			a, b := x.X, x.Y
+			// constants on the right (`0 < x` is `x > 0`)
+			if _, ak := a.(*ssa.Const); ak && !isNilConst(a) {
+				if _, bk := b.(*ssa.Const); !bk {
+					a, b = b, a
+					switch op {
+					case token.LSS:
+						op = token.GTR
+					case token.GTR:
+						op = token.LSS
+					case token.LEQ:
+						op = token.GEQ
+					case token.GEQ:
+						op = token.LEQ
+					}
+				}
+			}
+			// lengths are never negative: `len(x) < 1` is `len(x) == 0`, `len(x) > 0` and `len(x) >= 1` are `len(x) != 0`
+			if k, ok := b.(*ssa.Const); ok && k.Value != nil && k.Value.Kind() == constant.Int && strings.HasPrefix(desc(a), "len(") {
+				if n, exact := constant.Int64Val(k.Value); exact {
+					switch {
+					case op == token.LSS && n == 1, op == token.LEQ && n == 0:
+						return "EQ(" + desc(a) + ",const:0)"
+					case op == token.GEQ && n == 1, op == token.GTR && n == 0:
+						return "NE(" + desc(a) + ",const:0)"
+					}
+				}
+			}
 			// nil tests
 			if isNilConst(b) {
 				return opName(op) + "(" + desc(a) + ",nil)"
@@ -571,4 +598,55 @@ func uniq(s []string) []string {
 		m[x] = true
 	}
 	return sortedKeys(m)
+}
+
+// splitTopArgs splits "OP(a,b)" into its operator and top-level arguments (quotes and brackets respected).
+func splitTopArgs(l string) (string, []string) {
+	i := strings.IndexByte(l, '(')
+	if i < 0 || !strings.HasSuffix(l, ")") {
+		return "", nil
+	}
+	op, body := l[:i], l[i+1:len(l)-1]
+	var args []string
+	depth, start := 0, 0
+	inQ := false
+	for k := 0; k < len(body); k++ {
+		ch := body[k]
+		if inQ {
+			if ch == '\\' {
+				k++
+			} else if ch == '"' {
+				inQ = false
+			}
+			continue
+		}
+		switch ch {
+		case '"':
+			inQ = true
+		case '(', '[', '{':
+			depth++
+		case ')', ']', '}':
+			depth--
+		case ',':
+			if depth == 0 {
+				args = append(args, body[start:k])
+				start = k + 1
+			}
+		}
+	}
+	args = append(args, body[start:])
+	return op, args
+}
+
+// labelTwin: equality and inequality are symmetric — the label with its operands exchanged states the same fact.
+// Facts against nil or a constant keep the constant on the right and have no twin.
+func labelTwin(l string) (string, bool) {
+	if !strings.HasPrefix(l, "EQ(") && !strings.HasPrefix(l, "NE(") {
+		return "", false
+	}
+	op, args := splitTopArgs(l)
+	if len(args) != 2 || args[1] == "nil" || strings.HasPrefix(args[1], "const:") || args[0] == args[1] {
+		return "", false
+	}
+	return op + "(" + args[1] + "," + args[0] + ")", true
 }
